@@ -744,7 +744,12 @@ class NetPerformAction(Contract):
         S.old["ndraws"] = len(I.ctx.draws)
 
     def _draw(self, I, S):
-        ds = [d for d in I.ctx.draws[S.old["ndraws"]:] if d[0] == "rand"]
+        new = I.ctx.draws[S.old["ndraws"]:]
+        ds = [d for d in new if d[0] == "rand"]
+        # a batch draw consumes the stream differently from the contract's single draw: count it as two
+        for d in new:
+            if d[0] == "rand-batch":
+                ds = ds + [("rand", z3.Real("U_batch_a")), ("rand", z3.Real("U_batch_b"))]
         return ds
 
     def ensures(self, I, S):
